@@ -1,15 +1,17 @@
 (* Driver entry for C02: decodes one case, runs the model M (Model/C02.v) on the
    TOKENS and the specification S (Spec/C02.v) on the AST, encodes both answers.
-   case   = ( tokens env ast cmp )
+   case   = ( tokens env ast cmp text )       text: the expression as written after `#if`
      tokens = list of (kindcode spelling)           as Lexer.tokenize leaves them
      env    = list of (name tokens)                 object-like macros: Macro.replacement
      ast    = 0 | (L body sfx) | (C spelling) | (I name) | (D name paren) | (P e)
               | (U op e) | (B op a b) | (T c a b)
-   answer = ( M S T ) M = (Ok truth z unsigned) | (Err kind)     T = 1 | 0 | NA (see cmp below)
+   answer = ( M S T L ) M = (Ok truth z unsigned) | (Err kind)   T = 1 | 0 | NA (see cmp below)
+                      L = 1 | 0 : the model of Lexer.tokenize run on text gives exactly `tokens`
+                      (M is evaluated on the MODEL's tokens: text -> tokenize -> expand -> evaluate)
                       S = (Ok truth z unsigned) | UB | NoAst | BadAst
    Definitions only. *)
 From Coq Require Import ZArith Bool String Ascii List.
-From CBI Require Import Lib.Data Model.C02 Spec.C02.
+From CBI Require Import Lib.Data Model.C02 Model.C02lex Spec.C02.
 Import ListNotations.
 Local Open Scope string_scope.
 
@@ -72,10 +74,15 @@ Fixpoint toks_eqb (a b : list token) : bool :=
    exactly [tokens dt_source 0 e], the token sequence the theorems in Props/C02.v speak about *)
 Definition run_C02 (d : data) : data :=
   match d with
-  | DList [toks; env; ast; cmp] =>
+  | DList [toks; env; ast; cmp; DStr text] =>
       match as_list_of dec_token toks, as_list_of dec_macro env with
       | Some ts, Some en =>
-          let m := enc_outcome (evaluate_for_platform en ts) in
+          let lexed := tokenize (list_of_string text) in
+          let m := match lexed with
+                   | Some mts => enc_outcome (evaluate_for_platform en mts)
+                   | None => enc_outcome OOutOfFuel
+                   end in
+          let l := match lexed with Some mts => of_bool (toks_eqb mts ts) | None => of_bool false end in
           let '(s, t) :=
             match ast with
             | DInt _ => (DStr "NoAst", DStr "NA")
@@ -89,7 +96,7 @@ Definition run_C02 (d : data) : data :=
                    | None => (DStr "BadAst", DStr "NA")
                    end
             end in
-          DList [m; s; t]
+          DList [m; s; t; l]
       | _, _ => bad_case
       end
   | _ => bad_case
